@@ -660,9 +660,9 @@ int flatcc_verify_union_vector_field(flatcc_table_verifier_descriptor_t *td,
     uoffset_t count, base;
 
     if (0 == (vte_type = read_vt_entry(td, id - 1))) {
-        if (0 == (vte_table = read_vt_entry(td, id))) {
-            verify(!required, flatcc_verify_error_type_field_absent_from_required_union_vector_field);
-        }
+        vte_table = read_vt_entry(td, id);
+        verify(vte_table == 0, flatcc_verify_error_union_cannot_have_a_table_without_a_type);
+        verify(!required, flatcc_verify_error_type_field_absent_from_required_union_vector_field);
     }
     check_result(flatcc_verify_vector_field(td, id - 1, required,
                 utype_size, utype_size, FLATBUFFERS_COUNT_MAX(utype_size)));
@@ -674,7 +674,8 @@ int flatcc_verify_union_vector_field(flatcc_table_verifier_descriptor_t *td,
     ++buf;
     types = (utype_t *)buf;
 
-    check_field(td, id, required, base);
+    /* A type vector without a value vector cannot be indexed by the reader. */
+    check_field(td, id, 1, base);
     return verify_union_vector(td->buf, td->end, base, read_uoffset(td->buf, base),
             count, types, td->ttl, uvf);
 }
